@@ -1,1 +1,623 @@
-/-! # C07 — property theorems (not built yet) -/
+import PysphVerif.Lemmas.Domain
+import PysphVerif.Lemmas.DomainCover
+/-!
+# C07 — periodic and mirror domains create exactly the right ghost particles
+
+Property theorems only (helper lemmas live in `Lemmas/Domain.lean`).  They are
+about `Model/Domain.lean`, which transcribes `CPUDomainManager.update` and the
+routines it calls (mirror part: the repaired code, see
+`proposed_fixes/C07-mirror-ghosts.diff`) and is tied to the compiled code by
+exact differential execution on every run.
+
+All statements hold over every linearly ordered field `α`, every box, every
+combination of periodic / mirror flags, every layer thickness `δ`, every
+copied-property subset, every particle list and every history of
+move-then-update rounds.  Multiset equality is `List.Perm`.
+-/
+set_option linter.unusedSectionVars false
+namespace PysphVerif.C07
+open PysphVerif.Domain
+
+variable {α : Type} [Field α] [LinearOrder α] [IsStrictOrderedRing α]
+
+/-! ## wrapping -/
+
+/-- A coordinate that left a periodic box by at most one period lies inside it
+again after `_box_wrap_periodic`. -/
+theorem wrap_inside (lo hi v : α) (h1 : lo - (hi - lo) ≤ v) (h2 : v ≤ hi + (hi - lo)) :
+    lo ≤ wrap1 lo hi (hi - lo) v ∧ wrap1 lo hi (hi - lo) v ≤ hi :=
+  wrap1_inside lo hi v h1 h2
+
+/-- Wrapping moves by a whole period or not at all, and leaves points of the
+box where they are. -/
+theorem wrap_is_period_shift (lo hi L v : α) :
+    (wrap1 lo hi L v = v ∨ wrap1 lo hi L v = v + L ∨ wrap1 lo hi L v = v - L) ∧
+    (lo ≤ v → v ≤ hi → wrap1 lo hi L v = v) :=
+  ⟨wrap1_cases lo hi L v, wrap1_fix lo hi L v⟩
+
+/-- Whole-particle form: on every periodic axis a particle that left the box by
+at most one period is inside again; coordinates on other axes and every other
+property (velocities, `h`, tag, all remaining properties) are untouched. -/
+theorem wrap_particle (c : Config α) (p : Particle α) :
+    (∀ a, c.periodic a = true →
+        c.lo a - c.translate a ≤ p.pos a → p.pos a ≤ c.hi a + c.translate a →
+        c.lo a ≤ (wrapParticle c p).pos a ∧ (wrapParticle c p).pos a ≤ c.hi a) ∧
+    (∀ a, c.periodic a = false → (wrapParticle c p).pos a = p.pos a) ∧
+    SameButPos p (wrapParticle c p) := by
+  refine ⟨?_, ?_, sameButPos_wrapParticle c p⟩
+  · intro a ha h1 h2
+    rw [pos_wrapParticle, wrapCoord, ha]
+    exact wrap1_inside _ _ _ h1 h2
+  · intro a ha
+    rw [pos_wrapParticle, wrapCoord, ha]
+    simp
+
+/-! ## the ghosts are exactly the images -/
+
+/-- **Periodic ghosts.**  The buffer built by `_create_ghosts_periodic` from
+the rows `base` of an array holds, as a multiset, exactly the face, edge and
+corner images of every row (restricted to the copied properties) — none
+missing, none duplicated.  `imagesOf` is made explicit by
+`periodic_images_explicit`. -/
+theorem periodic_ghosts_eq_image_set (c : Config α) (δ : α) (cs : CopySpec α)
+    (base : List (Particle α)) :
+    (ghostsFor c.periodic (periodicOps c δ) (restrict cs) base).Perm
+      ((base.map (restrict cs)).flatMap (imagesOf c.periodic (periodicOps c δ))) :=
+  ghostsFor_perm _ _ _ (selInvariant_periodic c δ cs) base
+
+/-- **Mirror ghosts** (repaired code): same statement with the reflections. -/
+theorem mirror_ghosts_eq_image_set (c : Config α) (δ : α) (base : List (Particle α)) :
+    (ghostsFor c.mirror (mirrorOps c δ) id base).Perm
+      (base.flatMap (imagesOf c.mirror (mirrorOps c δ))) := by
+  have := ghostsFor_perm c.mirror (mirrorOps c δ) id (fun a => selInvariant_id _) base
+  simpa using this
+
+/-- direction `d` of axis `a` is taken for `q`: the axis is periodic and `q`
+lies within `δ` of the corresponding face (`<=`, as in the code) -/
+def inLayer (c : Config α) (δ : α) (a : Axis) (d : Dir) (q : Particle α) : Bool :=
+  match d with
+  | .none => true
+  | .low => c.periodic a && inLow c δ a q
+  | .high => c.periodic a && inHigh c δ a q
+
+/-- `+1` period for the low layer, `−1` for the high layer -/
+def coef : Dir → α
+  | .none => 0
+  | .low => 1
+  | .high => -1
+
+/-- `q` translated by `(a·Lx, b·Ly, c·Lz)` -/
+def translateBy (c : Config α) (dx dy dz : Dir) (q : Particle α) : Particle α :=
+  { q with x := q.x + coef dx * c.translate .x, y := q.y + coef dy * c.translate .y,
+           z := q.z + coef dz * c.translate .z }
+
+private theorem flatMap_congr_mem {β γ : Type} (l : List β) (f g : β → List γ)
+    (h : ∀ a ∈ l, f a = g a) : l.flatMap f = l.flatMap g := by
+  induction l with
+  | nil => rfl
+  | cons a l ih =>
+    simp only [List.flatMap_cons]
+    rw [h a List.mem_cons_self, ih (fun b hb => h b (List.mem_cons_of_mem _ hb))]
+
+private theorem eff_periodic_ok (c : Config α) (δ : α) (a : Axis) (d : Dir) (q : Particle α) :
+    (eff c.periodic (periodicOps c δ) a).ok d q = inLayer c δ a d q := by
+  unfold eff inLayer
+  cases h : c.periodic a <;> cases d <;> simp [AxisOps.ok, offOps, periodicOps]
+
+private theorem eff_periodic_img_pos (c : Config α) (δ : α) (a : Axis) (d : Dir) (q : Particle α)
+    (hok : inLayer c δ a d q = true) :
+    (eff c.periodic (periodicOps c δ) a).img d q = shift a (coef d * c.translate a) q := by
+  unfold eff
+  cases h : c.periodic a
+  · cases d
+    · cases a <;> simp [AxisOps.img, offOps, shift, coef, Particle.setPos, Particle.pos]
+    · simp [inLayer, h] at hok
+    · simp [inLayer, h] at hok
+  · cases d
+    · cases a <;> simp [AxisOps.img, shift, coef, Particle.setPos, Particle.pos]
+    · simp [AxisOps.img, periodicOps, coef]
+    · simp [AxisOps.img, periodicOps, coef]
+
+private theorem eff_periodic_ok_other (c : Config α) (δ : α) {a b : Axis} (hab : a ≠ b)
+    (d d' : Dir) (q : Particle α) :
+    (eff c.periodic (periodicOps c δ) b).ok d' ((eff c.periodic (periodicOps c δ) a).img d q) =
+      (eff c.periodic (periodicOps c δ) b).ok d' q := by
+  have hpos : ((eff c.periodic (periodicOps c δ) a).img d q).pos b = q.pos b := by
+    unfold eff
+    cases c.periodic a <;> cases d <;>
+      simp [AxisOps.img, offOps, periodicOps, pos_shift_ne hab]
+  rw [eff_periodic_ok, eff_periodic_ok]
+  unfold inLayer
+  cases d'
+  · rfl
+  · rw [inLow_congr c δ b _ _ hpos]
+  · rw [inHigh_congr c δ b _ _ hpos]
+
+/-- **The periodic images, explicitly.**  A particle `q` together with its
+periodic images is the list of `q + (a·Lx, b·Ly, c·Lz)` over the direction
+triples `(a, b, c) ∈ {0, +1, −1}³` whose three layer tests hold for `q` itself
+(the triple `(0,0,0)` — the head of the list — is `q`): faces, edges and
+corners.  Every other property of an image equals that of `q`. -/
+theorem periodic_images_explicit (c : Config α) (δ : α) (q : Particle α) :
+    allVariants c.periodic (periodicOps c δ) q =
+      (dirs.filter (fun d => inLayer c δ .x d q)).flatMap fun dx =>
+        (dirs.filter (fun d => inLayer c δ .y d q)).flatMap fun dy =>
+          (dirs.filter (fun d => inLayer c δ .z d q)).map fun dz => translateBy c dx dy dz q := by
+  unfold allVariants
+  rw [variants3_explicit _ _ _
+    (eff_periodic_ok_other c δ (by decide)) (eff_periodic_ok_other c δ (by decide))
+    (eff_periodic_ok_other c δ (by decide))]
+  simp only [eff_periodic_ok]
+  apply flatMap_congr_mem
+  intro dx hdx
+  apply flatMap_congr_mem
+  intro dy hdy
+  apply List.map_congr_left
+  intro dz hdz
+  have hx := (List.mem_filter.mp hdx).2
+  have hy := (List.mem_filter.mp hdy).2
+  have hz := (List.mem_filter.mp hdz).2
+  rw [eff_periodic_img_pos c δ .x dx q hx]
+  have hy' : inLayer c δ .y dy (shift .x (coef dx * c.translate .x) q) = true := by
+    rw [← eff_periodic_ok, ← eff_periodic_img_pos c δ .x dx q hx,
+      eff_periodic_ok_other c δ (by decide), eff_periodic_ok]; exact hy
+  rw [eff_periodic_img_pos c δ .y dy _ hy']
+  have hz' : inLayer c δ .z dz
+      (shift .y (coef dy * c.translate .y) (shift .x (coef dx * c.translate .x) q)) = true := by
+    rw [← eff_periodic_ok, ← eff_periodic_img_pos c δ .y dy _ hy',
+      eff_periodic_ok_other c δ (by decide), ← eff_periodic_img_pos c δ .x dx q hx,
+      eff_periodic_ok_other c δ (by decide), eff_periodic_ok]; exact hz
+  rw [eff_periodic_img_pos c δ .z dz _ hz']
+  simp [shift, translateBy, Particle.setPos, Particle.pos]
+
+/-- Both images of one particle along one axis are different from each other
+and from the particle when the period is not zero: no ghost is produced twice. -/
+theorem periodic_images_distinct (c : Config α) (a : Axis) (q : Particle α)
+    (hL : c.translate a ≠ 0) :
+    shift a (c.translate a) q ≠ q ∧ shift a (-(c.translate a)) q ≠ q ∧
+    shift a (c.translate a) q ≠ shift a (-(c.translate a)) q := by
+  have key : ∀ d e : α, shift a d q = shift a e q → d = e := by
+    intro d e h
+    have := congrArg (fun p => p.pos a) h
+    simp only [pos_shift_same] at this
+    exact add_left_cancel this
+  have hid : shift a 0 q = q := by
+    cases a <;> simp [shift, Particle.setPos, Particle.pos]
+  refine ⟨?_, ?_, ?_⟩
+  · intro h; exact hL (key _ 0 (h.trans hid.symm))
+  · intro h; exact hL (neg_eq_zero.mp (key _ 0 (h.trans hid.symm)))
+  · intro h
+    have := key _ _ h
+    have h2 : c.translate a + c.translate a = 0 := by
+      have := congrArg (fun t => t + c.translate a) this
+      simpa using this
+    have : (2 : α) * c.translate a = 0 := by rw [two_mul]; exact h2
+    rcases mul_eq_zero.mp this with h | h
+    · exact absurd h two_ne_zero
+    · exact hL h
+
+/-! ## exact copies, tagged as ghosts -/
+
+/-- Every periodic image of `q` carries exactly `q`'s velocities, `h`, tag and
+remaining properties; only coordinates differ. -/
+theorem periodic_image_same_props (c : Config α) (δ : α) (q g : Particle α)
+    (hg : g ∈ allVariants c.periodic (periodicOps c δ) q) : SameButPos q g :=
+  allVariants_rel _ _ SameButPos SameButPos.refl (fun _ _ _ => SameButPos.trans)
+    (fun a p => ⟨sameButPos_shift a _ p, sameButPos_shift a _ p⟩) q g hg
+
+/-- A copied property of a ghost is the source particle's value, a non-copied
+one is the array's default. -/
+theorem restrict_spec (cs : CopySpec α) (p : Particle α) :
+    (restrict cs p).x = p.x ∧ (restrict cs p).y = p.y ∧ (restrict cs p).z = p.z ∧
+    (restrict cs p).u = (if cs.keepU then p.u else cs.dU) ∧
+    (restrict cs p).v = (if cs.keepV then p.v else cs.dV) ∧
+    (restrict cs p).w = (if cs.keepW then p.w else cs.dW) ∧
+    (restrict cs p).h = (if cs.keepH then p.h else cs.dH) ∧
+    (restrict cs p).extra = pickList cs.keepExtra p.extra cs.dExtra :=
+  ⟨rfl, rfl, rfl, rfl, rfl, rfl, rfl, rfl⟩
+
+/-- `pickList` position by position -/
+theorem pickList_getElem (ks : List Bool) (as ds : List α) (i : Nat)
+    (hk : i < ks.length) (ha : i < as.length) (hd : i < ds.length) :
+    (pickList ks as ds)[i]? = some (if ks[i] then as[i] else ds[i]) := by
+  induction ks generalizing as ds i with
+  | nil => simp at hk
+  | cons k ks ih =>
+    cases as with
+    | nil => simp at ha
+    | cons a as =>
+      cases ds with
+      | nil => simp at hd
+      | cons d ds =>
+        cases i with
+        | zero => simp [pickList, pick]
+        | succ i =>
+          simp only [pickList, List.getElem?_cons_succ, List.getElem_cons_succ]
+          exact ih as ds i (by simpa using hk) (by simpa using ha) (by simpa using hd)
+
+/-! ## one update: real particles only wrapped, ghosts a function of them -/
+
+/-- What one `update()` leaves in an array, when the domain is periodic and/or
+mirrored: the non-ghost rows, wrapped (in their order), then the periodic
+ghosts, then the mirror ghosts — where the periodic ghosts are exactly the
+images of the wrapped rows and the mirror ghosts exactly the reflections of
+everything before them; all ghosts are tagged, nothing else is. -/
+theorem update_structure (c : Config α) (δ : α) (cs : CopySpec α) (arr : List (Particle α))
+    (hact : (c.isPeriodic || c.isMirror) = true) :
+    ∃ R Gp Gm : List (Particle α),
+      updateArray c δ cs arr = R ++ Gp ++ Gm ∧
+      R = (if c.isPeriodic then (removeGhosts arr).map (wrapParticle c) else removeGhosts arr) ∧
+      Gp.Perm (if c.isPeriodic then
+          (((R.map (restrict cs)).flatMap (imagesOf c.periodic (periodicOps c δ))).map
+            (setTag ghostTag)) else []) ∧
+      Gm.Perm (if c.isMirror then
+          (((R ++ Gp).flatMap (imagesOf c.mirror (mirrorOps c δ))).map (setTag ghostTag)) else []) ∧
+      (∀ g ∈ Gp ++ Gm, g.tag = ghostTag) ∧ removeGhosts R = R := by
+  have hR0 : removeGhosts (removeGhosts arr) = removeGhosts arr := removeGhosts_idem arr
+  have hRw : removeGhosts ((removeGhosts arr).map (wrapParticle c)) =
+      (removeGhosts arr).map (wrapParticle c) := by
+    rw [removeGhosts_map_of_tag _ (tag_wrapParticle c), hR0]
+  have htag : ∀ (l : List (Particle α)), ∀ g ∈ l.map (setTag ghostTag), g.tag = ghostTag := by
+    intro l g hg
+    obtain ⟨q, _, rfl⟩ := List.mem_map.mp hg
+    rfl
+  unfold updateArray
+  rw [if_pos hact]
+  cases hp : c.isPeriodic <;> cases hm : c.isMirror
+  · simp [hp, hm] at hact
+  · -- mirror only
+    refine ⟨removeGhosts arr, [],
+      (ghostsFor c.mirror (mirrorOps c δ) id (removeGhosts arr)).map (setTag ghostTag),
+      ?_, ?_, ?_, ?_, ?_, hR0⟩
+    · simp [mirrorStage]
+    · simp
+    · simp
+    · simp only [if_true, List.append_nil]
+      exact (mirror_ghosts_eq_image_set c δ _).map _
+    · intro g hg; exact htag _ g (by simpa using hg)
+  · -- periodic only
+    refine ⟨(removeGhosts arr).map (wrapParticle c),
+      (ghostsFor c.periodic (periodicOps c δ) (restrict cs)
+        ((removeGhosts arr).map (wrapParticle c))).map (setTag ghostTag), [],
+      ?_, ?_, ?_, ?_, ?_, hRw⟩
+    · simp [periodicStage]
+    · simp
+    · simp only [if_true]
+      exact (periodic_ghosts_eq_image_set c δ cs _).map _
+    · simp
+    · intro g hg; exact htag _ g (by simpa using hg)
+  · -- both
+    refine ⟨(removeGhosts arr).map (wrapParticle c),
+      (ghostsFor c.periodic (periodicOps c δ) (restrict cs)
+        ((removeGhosts arr).map (wrapParticle c))).map (setTag ghostTag),
+      (ghostsFor c.mirror (mirrorOps c δ) id
+        (periodicStage c δ cs (removeGhosts arr))).map (setTag ghostTag),
+      ?_, ?_, ?_, ?_, ?_, hRw⟩
+    · simp [periodicStage, mirrorStage]
+    · simp
+    · simp only [if_true]
+      exact (periodic_ghosts_eq_image_set c δ cs _).map _
+    · simp only [if_true]
+      exact (mirror_ghosts_eq_image_set c δ _).map _
+    · intro g hg
+      rcases List.mem_append.mp hg with h | h
+      · exact htag _ g h
+      · exact htag _ g h
+
+/-- Real (non-ghost) particles after an update: those before, wrapped on the
+periodic axes, in the same order — nothing else about them changes
+(`wrap_particle`), none is lost, none is added. -/
+theorem update_reals (c : Config α) (δ : α) (cs : CopySpec α) (arr : List (Particle α))
+    (hact : (c.isPeriodic || c.isMirror) = true) :
+    removeGhosts (updateArray c δ cs arr) =
+      if c.isPeriodic then (removeGhosts arr).map (wrapParticle c) else removeGhosts arr := by
+  obtain ⟨R, Gp, Gm, heq, hR, _, _, htag, hRR⟩ := update_structure c δ cs arr hact
+  have hG : removeGhosts (Gp ++ Gm) = [] := by
+    unfold removeGhosts
+    rw [List.filter_eq_nil_iff]
+    intro g hg
+    simp [isGhost, htag g hg]
+  rw [heq, List.append_assoc, removeGhosts_append, hG, hRR, List.append_nil, hR]
+
+/-- Ghosts present before an update have no influence on its result. -/
+theorem update_ignores_old_ghosts (c : Config α) (δ : α) (cs : CopySpec α)
+    (arr : List (Particle α)) (hact : (c.isPeriodic || c.isMirror) = true) :
+    updateArray c δ cs arr = updateArray c δ cs (removeGhosts arr) := by
+  unfold updateArray
+  rw [if_pos hact, if_pos hact, removeGhosts_idem]
+
+/-! ## histories: no accumulation -/
+
+/-- anything the integrator may do to the rows between two updates, as long as
+it keeps their tags (positions, velocities, `h`, … may all change) -/
+def TagPreserving (m : Particle α → Particle α) : Prop := ∀ p, (m p).tag = p.tag
+
+/-- one round: move, then update with that round's layer thickness -/
+def step (c : Config α) (cs : CopySpec α) (st : List (Particle α))
+    (r : α × (Particle α → Particle α)) : List (Particle α) :=
+  updateArray c r.1 cs (st.map r.2)
+
+/-- any number of move-then-update rounds -/
+def run (c : Config α) (cs : CopySpec α) (rounds : List (α × (Particle α → Particle α)))
+    (arr : List (Particle α)) : List (Particle α) :=
+  rounds.foldl (step c cs) arr
+
+/-- the real particles after a history: moved and wrapped round by round -/
+def realsAfter (c : Config α) (rounds : List (α × (Particle α → Particle α)))
+    (reals : List (Particle α)) : List (Particle α) :=
+  rounds.foldl (fun r rd => if c.isPeriodic then (r.map rd.2).map (wrapParticle c) else r.map rd.2)
+    reals
+
+theorem reals_of_run (c : Config α) (cs : CopySpec α)
+    (hact : (c.isPeriodic || c.isMirror) = true)
+    (rounds : List (α × (Particle α → Particle α)))
+    (hm : ∀ r ∈ rounds, TagPreserving r.2) (arr : List (Particle α)) :
+    removeGhosts (run c cs rounds arr) = realsAfter c rounds (removeGhosts arr) := by
+  induction rounds generalizing arr with
+  | nil => rfl
+  | cons r rounds ih =>
+    simp only [run, realsAfter, List.foldl_cons]
+    have h1 := ih (fun r' hr' => hm r' (List.mem_cons_of_mem _ hr')) (step c cs arr r)
+    simp only [run, realsAfter] at h1
+    rw [h1]
+    congr 1
+    unfold step
+    rw [update_reals c r.1 cs _ hact,
+      removeGhosts_map_of_tag _ (hm r List.mem_cons_self)]
+
+/-- **No accumulation.**  After any history of move-then-update rounds the
+array is what a single update produces from the current real particles alone:
+ghosts of earlier rounds leave no trace, and the real particles are the
+initial ones, moved and wrapped. -/
+theorem no_accumulation (c : Config α) (cs : CopySpec α)
+    (hact : (c.isPeriodic || c.isMirror) = true)
+    (rounds : List (α × (Particle α → Particle α)))
+    (hm : ∀ r ∈ rounds, TagPreserving r.2)
+    (δ : α) (m : Particle α → Particle α) (hmove : TagPreserving m) (arr : List (Particle α)) :
+    run c cs (rounds ++ [(δ, m)]) arr =
+      updateArray c δ cs ((realsAfter c rounds (removeGhosts arr)).map m) := by
+  simp only [run, List.foldl_append, List.foldl_cons, List.foldl_nil, step]
+  rw [update_ignores_old_ghosts c δ cs _ hact, removeGhosts_map_of_tag _ hmove]
+  have := reals_of_run c cs hact rounds hm arr
+  simp only [run] at this
+  rw [this]
+
+/-- The number of periodic ghosts never exceeds 26 per real particle, whatever
+the history. -/
+theorem periodic_ghost_count_le (c : Config α) (δ : α) (cs : CopySpec α)
+    (base : List (Particle α)) :
+    (ghostsFor c.periodic (periodicOps c δ) (restrict cs) base).length ≤ 26 * base.length := by
+  rw [(periodic_ghosts_eq_image_set c δ cs base).length_eq]
+  have key : ∀ l : List (Particle α),
+      (l.flatMap (imagesOf c.periodic (periodicOps c δ))).length ≤ 26 * l.length := by
+    intro l
+    induction l with
+    | nil => simp
+    | cons b l ih =>
+      simp only [List.flatMap_cons, List.length_append, List.length_cons]
+      have := imagesOf_length_le c.periodic (periodicOps c δ) b
+      omega
+  have := key (base.map (restrict cs))
+  simpa using this
+
+/-! ## mirror images -/
+
+/-- A mirror image along axis `a`: position reflected in the face
+(`2·lo − x`, `2·hi − x`), normal velocity component reversed, everything else
+(other coordinates and velocity components, `h`, tag, remaining properties)
+unchanged; taken exactly when the particle is within `δ` of that face. -/
+theorem mirror_images (c : Config α) (δ : α) (a : Axis) (p : Particle α) :
+    ((mirrorOps c δ a).selLow p = true ↔ p.pos a - c.lo a ≤ δ) ∧
+    ((mirrorOps c δ a).selHigh p = true ↔ c.hi a - p.pos a ≤ δ) ∧
+    ((mirrorOps c δ a).imgLow p).pos a = 2 * c.lo a - p.pos a ∧
+    ((mirrorOps c δ a).imgLow p).vel a = - p.vel a ∧
+    ((mirrorOps c δ a).imgHigh p).pos a = 2 * c.hi a - p.pos a ∧
+    ((mirrorOps c δ a).imgHigh p).vel a = - p.vel a ∧
+    (∀ b, b ≠ a →
+      ((mirrorOps c δ a).imgLow p).pos b = p.pos b ∧ ((mirrorOps c δ a).imgLow p).vel b = p.vel b ∧
+      ((mirrorOps c δ a).imgHigh p).pos b = p.pos b ∧ ((mirrorOps c δ a).imgHigh p).vel b = p.vel b) ∧
+    ((mirrorOps c δ a).imgLow p).h = p.h ∧ ((mirrorOps c δ a).imgLow p).extra = p.extra ∧
+    ((mirrorOps c δ a).imgHigh p).h = p.h ∧ ((mirrorOps c δ a).imgHigh p).extra = p.extra := by
+  have hl := mirrorLow_spec c a p
+  have hh := mirrorHigh_spec c a p
+  obtain ⟨ho, h1, h2, _, h3, h4, _⟩ := mirror_others c a p
+  refine ⟨by simp [mirrorOps, inLow], by simp [mirrorOps, inHigh], hl.1, hl.2, hh.1, hh.2, ho,
+    h1, h2, h3, h4⟩
+
+/-! ## several arrays -/
+
+/-- One `update()` treats every particle array on its own: array `i` of the
+result depends on array `i` of the input (and its copied-property list) only,
+apart from the common layer thickness `n_layers · cell_size`.  (This is what
+the unrepaired mirror code violated for the second array.) -/
+theorem update_each_array (c : Config α) (specs : List (CopySpec α))
+    (arrs : List (List (Particle α))) :
+    (update c specs arrs).2 =
+      List.zipWith (updateArray c (c.nLayers * cellSize c arrs)) specs arrs := by
+  have h : ∀ (δ : α) (specs : List (CopySpec α)) (arrs : List (List (Particle α))),
+      updateArrays c δ specs arrs = List.zipWith (updateArray c δ) specs arrs := by
+    intro δ specs
+    induction specs with
+    | nil => intro arrs; cases arrs <;> rfl
+    | cons s specs ih =>
+      intro arrs
+      cases arrs with
+      | nil => rfl
+      | cons a arrs => simp [updateArrays, ih]
+  exact h _ specs arrs
+
+/-! ## every image that can interact with a real particle is present -/
+
+/-- the lattice image `q + (kx·Lx, ky·Ly, kz·Lz)` of `q`, `k` any integers -/
+def latticeImage (c : Config α) (k : Axis → ℤ) (q : Particle α) : Particle α :=
+  { q with x := q.x + (k .x : α) * c.translate .x, y := q.y + (k .y : α) * c.translate .y,
+           z := q.z + (k .z : α) * c.translate .z }
+
+private theorem axis_dir (c : Config α) (δ : α) (p q : Particle α) (k : Axis → ℤ) (a : Axis)
+    (hbox : c.periodic a = true →
+      (c.lo a ≤ p.pos a ∧ p.pos a ≤ c.hi a) ∧ (c.lo a ≤ q.pos a ∧ q.pos a ≤ c.hi a) ∧
+        δ < c.translate a)
+    (hk : c.periodic a = false → k a = 0)
+    (hnear : |q.pos a + (k a : α) * c.translate a - p.pos a| ≤ δ) :
+    ∃ d, inLayer c δ a d q = true ∧ (k a : α) = coef d := by
+  cases hper : c.periodic a
+  · refine ⟨Dir.none, rfl, ?_⟩
+    rw [hk hper]; simp [coef]
+  · obtain ⟨hp, hq, hδ⟩ := hbox hper
+    rcases axis_cover (c.lo a) (c.hi a) δ (p.pos a) (q.pos a) (k a) hp hq hδ hnear with
+      h | ⟨h, hl⟩ | ⟨h, hh⟩
+    · refine ⟨Dir.none, rfl, ?_⟩
+      rw [h]; simp [coef]
+    · refine ⟨Dir.low, ?_, ?_⟩
+      · simp [inLayer, hper, inLow, hl]
+      · rw [h]; simp [coef]
+    · refine ⟨Dir.high, ?_, ?_⟩
+      · simp [inLayer, hper, inHigh, hh]
+      · rw [h]; simp [coef]
+
+/-- **Coverage.**  Let `p` and `q` lie in the box on every periodic axis, let
+the layer be thinner than every period, and let some lattice image
+`q + k·L ≠ q` of `q` (any integers `k`, zero on the non-periodic axes) come
+within `δ` of `p` on every axis — in particular whenever it is within a cut-off
+`≤ δ` of `p` in the Euclidean distance.  Then that lattice image is one of the
+images the domain manager creates for `q`. -/
+theorem images_cover_interactions (c : Config α) (δ : α) (p q : Particle α) (k : Axis → ℤ)
+    (hbox : ∀ a, c.periodic a = true →
+      (c.lo a ≤ p.pos a ∧ p.pos a ≤ c.hi a) ∧ (c.lo a ≤ q.pos a ∧ q.pos a ≤ c.hi a) ∧
+        δ < c.translate a)
+    (hk : ∀ a, c.periodic a = false → k a = 0)
+    (hk0 : ∃ a, k a ≠ 0)
+    (hnear : ∀ a, |q.pos a + (k a : α) * c.translate a - p.pos a| ≤ δ) :
+    latticeImage c k q ∈ imagesOf c.periodic (periodicOps c δ) q := by
+  obtain ⟨dx, hx1, hx2⟩ := axis_dir c δ p q k .x (hbox .x) (hk .x) (hnear .x)
+  obtain ⟨dy, hy1, hy2⟩ := axis_dir c δ p q k .y (hbox .y) (hk .y) (hnear .y)
+  obtain ⟨dz, hz1, hz2⟩ := axis_dir c δ p q k .z (hbox .z) (hk .z) (hnear .z)
+  have heq : latticeImage c k q = translateBy c dx dy dz q := by
+    simp [latticeImage, translateBy, hx2, hy2, hz2]
+  have hd : ∀ d : Dir, d ∈ dirs := by intro d; cases d <;> simp [dirs]
+  have hmem : latticeImage c k q ∈ allVariants c.periodic (periodicOps c δ) q := by
+    rw [periodic_images_explicit, heq]
+    simp only [List.mem_flatMap, List.mem_filter, List.mem_map]
+    exact ⟨dx, ⟨hd dx, hx1⟩, dy, ⟨hd dy, hy1⟩, dz, ⟨hd dz, hz1⟩, rfl⟩
+  rw [allVariants_head] at hmem
+  rcases List.mem_cons.mp hmem with h | h
+  · exfalso
+    obtain ⟨a, ha⟩ := hk0
+    have hper : c.periodic a = true := by
+      cases hp : c.periodic a
+      · exact absurd (hk a hp) ha
+      · rfl
+    obtain ⟨_, _, hδ⟩ := hbox a hper
+    have hL : 0 < c.translate a := lt_of_le_of_lt (le_trans (abs_nonneg _) (hnear a)) hδ
+    have hpos : (latticeImage c k q).pos a = q.pos a + (k a : α) * c.translate a := by
+      cases a <;> rfl
+    rw [h] at hpos
+    have : (k a : α) * c.translate a = 0 := by linarith
+    rcases mul_eq_zero.mp this with h0 | h0
+    · exact ha (by exact_mod_cast h0)
+    · exact absurd h0 (ne_of_gt hL)
+  · exact h
+
+/-- …and therefore a ghost of the array: for every row `q` of the array, the
+interacting lattice image (restricted to the copied properties, tagged) is in
+the ghost buffer that `_create_ghosts_periodic` appends. -/
+theorem interacting_image_is_ghost (c : Config α) (δ : α) (cs : CopySpec α)
+    (base : List (Particle α)) (p q : Particle α) (hq : q ∈ base) (k : Axis → ℤ)
+    (hbox : ∀ a, c.periodic a = true →
+      (c.lo a ≤ p.pos a ∧ p.pos a ≤ c.hi a) ∧ (c.lo a ≤ q.pos a ∧ q.pos a ≤ c.hi a) ∧
+        δ < c.translate a)
+    (hk : ∀ a, c.periodic a = false → k a = 0)
+    (hk0 : ∃ a, k a ≠ 0)
+    (hnear : ∀ a, |q.pos a + (k a : α) * c.translate a - p.pos a| ≤ δ) :
+    setTag ghostTag (latticeImage c k (restrict cs q)) ∈
+      (ghostsFor c.periodic (periodicOps c δ) (restrict cs) base).map (setTag ghostTag) := by
+  apply List.mem_map_of_mem
+  rw [(periodic_ghosts_eq_image_set c δ cs base).mem_iff, List.mem_flatMap]
+  refine ⟨restrict cs q, List.mem_map_of_mem hq, ?_⟩
+  apply images_cover_interactions c δ p (restrict cs q) k _ hk hk0
+  · intro a; rw [pos_restrict]; exact hnear a
+  · intro a ha; rw [pos_restrict]; exact hbox a ha
+
+/-- The layer the update uses, `n_layers · cell_size`, is at least the
+interaction radius `radius_scale · h` of every particle present, provided
+`n_layers ≥ 1` (and `0 ≤ 1e-6 ≤ 1`, `radius_scale ≥ 0`). -/
+theorem layer_covers_cutoff (c : Config α) (hrs : 0 ≤ c.radiusScale) (heps0 : 0 ≤ c.eps)
+    (heps : c.eps ≤ 1) (hnl : 1 ≤ c.nLayers)
+    (arrs : List (List (Particle α))) (arr : List (Particle α)) (harr : arr ∈ arrs)
+    (p : Particle α) (hp : p ∈ arr) :
+    c.radiusScale * p.h ≤ c.nLayers * cellSize c arrs := by
+  have h1 := cellSize_ge c hrs heps arrs arr harr p hp
+  have h0 : 0 ≤ cellSize c arrs := by
+    unfold cellSize
+    simp only
+    split
+    · exact zero_le_one
+    · rename_i h; exact le_trans heps0 (not_lt.mp h)
+  calc c.radiusScale * p.h ≤ cellSize c arrs := h1
+    _ = 1 * cellSize c arrs := (one_mul _).symm
+    _ ≤ c.nLayers * cellSize c arrs := mul_le_mul_of_nonneg_right hnl h0
+
+/-! ## non-vacuity: concrete states meeting the hypotheses (over ℚ) -/
+
+/-- unit square, periodic in x and y, layer 1/8 -/
+def exCfg : Config ℚ :=
+  { xmin := 0, xmax := 1, ymin := 0, ymax := 1, zmin := 0, zmax := 0,
+    px := true, py := true, pz := false, mx := false, my := false, mz := false,
+    nLayers := 1, radiusScale := 2, eps := 1 / 1000000 }
+def exSpec : CopySpec ℚ :=
+  { keepU := true, keepV := false, keepW := true, keepH := true, keepExtra := [true],
+    dU := 0, dV := 9, dW := 0, dH := 0, dExtra := [0] }
+/-- a particle that left the box through the corner, and a stale ghost -/
+def exOut : Particle ℚ :=
+  { x := -15/16, y := 17/16, z := 0, u := 1, v := 2, w := 3, h := 1/16, tag := 0, extra := [7] }
+def exStale : Particle ℚ := { exOut with x := 5, tag := 2 }
+
+/-- wrapped into the corner (1/16, 1/16); three images (two faces, one corner),
+tagged, `v` replaced by its default, the stale ghost gone -/
+example : updateArray exCfg (1/8) exSpec [exOut, exStale] =
+    [ { exOut with x := 1/16, y := 1/16 },
+      { exOut with x := 17/16, y := 1/16, v := 9, tag := 2 },
+      { exOut with x := 17/16, y := 17/16, v := 9, tag := 2 },
+      { exOut with x := 1/16, y := 17/16, v := 9, tag := 2 } ] := by decide +kernel
+
+example : wrap1 (0 : ℚ) 1 (1 - 0) (-15/16) = 1/16 ∧ (0 : ℚ) - (1 - 0) ≤ -15/16 := by
+  decide +kernel
+
+example : (exCfg.isPeriodic || exCfg.isMirror) = true ∧
+    allVariants exCfg.periodic (periodicOps exCfg (1/8)) { exOut with x := 1/16, y := 1/16 } =
+      [ { exOut with x := 1/16, y := 1/16 }, { exOut with x := 1/16, y := 17/16 },
+        { exOut with x := 17/16, y := 1/16 }, { exOut with x := 17/16, y := 17/16 } ] := by
+  decide +kernel
+
+/-- mirror in x on [0,1]: the image of x = 1/16 moving with u = 1 sits at −1/16 with u = −1 -/
+example :
+    let c : Config ℚ := { exCfg with px := false, py := false, mx := true }
+    updateArray c (1/8) exSpec [{ exOut with x := 1/16, y := 1/2 }] =
+      [ { exOut with x := 1/16, y := 1/2 },
+        { exOut with x := -1/16, y := 1/2, u := -1, tag := 2 } ] := by decide +kernel
+
+/-- a two-round history with a tag-preserving move -/
+example :
+    let mv : Particle ℚ → Particle ℚ := fun p => { p with x := p.x + 1/2 }
+    TagPreserving mv ∧
+    run exCfg exSpec [(1/8, mv), (1/8, mv)] [exOut, exStale] =
+      updateArray exCfg (1/8) exSpec [{ exOut with x := 1/16 + 1/2 + 1/2, y := 1/16 }] := by
+  refine ⟨fun _ => rfl, ?_⟩
+  decide +kernel
+
+/-- coverage: `q` near the high x face, `p` near the low one; the `−Lx` image of
+`q` is within `δ = 1/8` of `p` and is among the images created -/
+example :
+    let p : Particle ℚ := { exOut with x := 1/16, y := 1/2 }
+    let q : Particle ℚ := { exOut with x := 15/16, y := 1/2 }
+    let k : Axis → ℤ := fun a => match a with | .x => -1 | _ => 0
+    (|q.pos .x + (k .x : ℚ) * exCfg.translate .x - p.pos .x| ≤ 1/8 ∧
+     |q.pos .y + (k .y : ℚ) * exCfg.translate .y - p.pos .y| ≤ 1/8 ∧
+     |q.pos .z + (k .z : ℚ) * exCfg.translate .z - p.pos .z| ≤ 1/8 ∧
+     (1/8 : ℚ) < exCfg.translate .x ∧ (1/8 : ℚ) < exCfg.translate .y) ∧
+    latticeImage exCfg k q ∈ imagesOf exCfg.periodic (periodicOps exCfg (1/8)) q := by
+  refine ⟨?_, by decide +kernel⟩
+  simp only [Particle.pos, exOut, exCfg, Config.translate, Config.hi, Config.lo]
+  norm_num [abs_le]
+
+end PysphVerif.C07
